@@ -237,6 +237,17 @@ func (r *recorder) RemoveInformer(gvk gvkT) error {
 	return err
 }
 
+// CRDDeleted: the CRD defining gvk's kind (versions: gvk's and one nobody watches) is deleted;
+// the engine's informer garbage collector (started by the caller) removes the informers. For
+// the model this is the removal of gvk's informer.
+func (r *recorder) CRDDeleted(gvk gvkT, otherVersion string) int {
+	i := r.call("RemoveInformer", "", []string{gvk.Kind + "." + gvk.Version + "." + gvk.Group}, false)
+	n := 0
+	perr := kit.Try(func() { n = r.w.fc.crdDeleted(gvk, gvk.Version, otherVersion) })
+	r.ret(i, nil, perr)
+	return n
+}
+
 // ---------------------------------------------------------------- generated operations
 
 type opSpec struct {
